@@ -104,6 +104,39 @@ def Sess.dropSlot (s : Sess) (k : Nat) : Sess :=
 /-- spec cursor view of slot list `xs` -/
 def curOf (xs : List Nat) (pos : Nat) (rm : Bool) : Spec.Seq.Cursor := { done := xs.take pos, todo := xs.drop pos, removed := rm }
 
+/-- the harness presets both out-parameters of the zip calls with this value -/
+def zipUntouched : Nat := 777777
+
+/-- the ideal list under a zip call whose two sides are the *same* array: the two list-level calls of
+the C text in sequence on one list.  `nadd`: how many of the two inner `add_at` calls of `zip_iter_add`
+got their room (2, 1 — the second one's growth step was refused, its status is not reported — or 0:
+the call itself reported `CC_ERR_ALLOC`). -/
+def specZip1 (op : String) (xs : List Nat) (pos : Nat) (rm : Bool) (x y nadd : Nat) :
+    Stat × Option (Nat × Nat) × List Nat × Nat × Bool :=
+  match op with
+  | "zit_next" =>
+    if pos ≥ xs.length then (.iterEnd, none, xs, pos, rm)
+    else (.ok, some (xs.getD pos 0, xs.getD pos 0), xs, pos + 1, false)
+  | "zit_remove" =>
+    if Spec.Seq.wdec pos ≥ xs.length then (.errOutOfRange, none, xs, pos, rm)
+    else if rm then (.errValueNotFound, none, xs, pos, rm)
+    else
+      let r1 := Spec.Seq.removeAt xs (Spec.Seq.wdec pos)
+      let r2 := Spec.Seq.removeAt r1.2.2 (Spec.Seq.wdec pos)
+      (.ok, some (r1.2.1.getD 0, r2.2.1.getD zipUntouched), r2.2.2, pos - 1, true)
+  | "zit_add" =>
+    if nadd = 0 then (.errAlloc, none, xs, pos, rm) else
+    let xs1 := (Spec.Seq.addAt xs x pos).2
+    let xs2 := if nadd = 1 then xs1 else (Spec.Seq.addAt xs1 y pos).2
+    (.ok, none, xs2, pos + 1, rm)
+  | "zit_replace" =>
+    if Spec.Seq.wdec pos ≥ xs.length then (.errOutOfRange, none, xs, pos, rm)
+    else
+      let r1 := Spec.Seq.replaceAt xs x (Spec.Seq.wdec pos)
+      let r2 := Spec.Seq.replaceAt r1.2.2 y (Spec.Seq.wdec pos)
+      (.ok, some (r1.2.1.getD 0, r2.2.1.getD 0), r2.2.2, pos, rm)
+  | _ => (.ok, none, xs, pos, rm)
+
 def step (s : Sess) (c : Cmd) : Sess × String × String :=
   let m := s.mem.begin c.sched
   let refused := c.fired > 0
@@ -146,7 +179,7 @@ def step (s : Sess) (c : Cmd) : Sess × String × String :=
     if cb then fin r.1 s!"st=- cb={fmtList r.2.1}" s!"st=- cb={fmtList r.2.2}" else fin r.1 "st=-" "st=-"
   | "zit_new" =>
     let p := c.nat "p" 1
-    if p ≥ NSLOT ∨ p = k ∨ (s.arr k).isNone ∨ (s.arr p).isNone then
+    if p ≥ NSLOT ∨ (s.arr k).isNone ∨ (s.arr p).isNone then
       fin { s with zit := none, szit := none } "st=- noobj" "st=- noobj" else
     fin { s with zit := some (k, p, {}), szit := some (k, p, 0, false) } "st=-" "st=-"
   | "zit_next" | "zit_remove" | "zit_add" | "zit_replace" | "zit_index" =>
@@ -154,6 +187,21 @@ def step (s : Sess) (c : Cmd) : Sess × String × String :=
     | some (k1, k2, it), some (_, _, pos, rm) =>
       match s.arr k1, s.arr k2, s.lst k1, s.lst k2 with
       | some a1, some a2, some xs1, some xs2 =>
+        -- the same array on both sides: one state threaded through both halves of the call
+        if k1 = k2 then
+          if c.op == "zit_index" then fin s s!"st=- out={Spec.Seq.wdec pos}" s!"st=- out={Arr.iterIndex it}" else
+          if c.op == "zit_add" ∧ growCheck a1 ≠ 0 then ({ s with blind := true }, "S ?", "M ?") else
+          let (st, o, a', it', m) : Stat × Option (Nat × Nat) × Arr × ArrIter × Mem :=
+            match c.op with
+            | "zit_next" => let r := Arr.zipNext a1 a1 it s.mem; (r.1, r.2.1, a1, r.2.2.1, r.2.2.2)
+            | "zit_remove" => Arr.zipRemove1 a1 it zipUntouched s.mem
+            | "zit_add" => let r := Arr.zipAdd1 a1 it x y s.mem; (r.1, none, r.2.1, r.2.2.1, r.2.2.2)
+            | _ => let r := Arr.zipReplace1 a1 it x y s.mem; (r.1, r.2.1, r.2.2.1, it, r.2.2.2)
+          let nadd := if st == Stat.errAlloc then 0 else a'.size - a1.size
+          let (sst, so, xs', pos', rm') := specZip1 c.op xs1 pos rm x y nadd
+          fin { (s.setArr k1 (some a')).setLst k1 (some xs') with zit := some (k1, k2, it'), szit := some (k1, k2, pos', rm'), mem := m }
+            (fmtOut2 sst so) (fmtOut2 st o)
+        else
         let zc : Spec.Seq.ZipCursor := { done1 := xs1.take pos, todo1 := xs1.drop pos, done2 := xs2.take pos, todo2 := xs2.drop pos, removed := rm }
         let putS (s : Sess) (zc : Spec.Seq.ZipCursor) : Sess :=
           { (s.setLst k1 (some zc.content1)).setLst k2 (some zc.content2) with szit := some (k1, k2, zc.done1.length, zc.removed) }
